@@ -280,13 +280,25 @@ func main() {
 	if cfg.Replay != "" {
 		var rp struct {
 			Input struct {
-				String string `json:"string"`
+				String   string   `json:"string"`
+				Seed     string   `json:"seed"`
+				Net      int      `json:"net_index"`
+				Path     []uint32 `json:"path_indices"`
+				Neutered bool     `json:"neutered"`
 			} `json:"input"`
 		}
 		b, err := os.ReadFile(cfg.Replay)
 		vh.Must(err)
 		vh.Must(json.Unmarshal(b, &rp))
-		if k, err := parseOne(rp.Input.String, "replay", false); err == nil {
+		if rp.Input.Seed != "" { // a produced key: rebuild it by derivation, then round-trip it
+			seed, _ := hex.DecodeString(rp.Input.Seed)
+			if k, _ := derive(seed, rp.Input.Net, rp.Input.Path); k != nil {
+				if rp.Input.Neutered {
+					k, _ = k.Neuter()
+				}
+				roundTrip(k, map[string]interface{}{"seed": rp.Input.Seed, "net_index": rp.Input.Net, "path_indices": rp.Input.Path, "neutered": rp.Input.Neutered}, false, rng.Fork("replay"))
+			}
+		} else if k, err := parseOne(rp.Input.String, "replay", false); err == nil {
 			roundTrip(k, map[string]interface{}{"source": "replay"}, false, rng.Fork("replay"))
 		}
 		finish()
@@ -318,10 +330,11 @@ func main() {
 		if k == nil {
 			continue
 		}
-		what := map[string]interface{}{"seed": vh.Hex(seed), "net": nets[net].Name, "path": fmt.Sprint(path)}
+		what := map[string]interface{}{"seed": vh.Hex(seed), "net": nets[net].Name, "net_index": net, "path_indices": path}
+		rep.Sample(map[string]interface{}{"family": "produced", "seed": vh.Hex(seed), "net": nets[net].Name, "path": fmt.Sprint(path), "string": k.String()}, 4)
 		roundTrip(k, what, t%2 == 0, r)
 		nk, _ := k.Neuter()
-		what2 := map[string]interface{}{"seed": vh.Hex(seed), "net": nets[net].Name, "path": fmt.Sprint(path), "neutered": true}
+		what2 := map[string]interface{}{"seed": vh.Hex(seed), "net": nets[net].Name, "net_index": net, "path_indices": path, "neutered": true}
 		roundTrip(nk, what2, t%2 == 1, r)
 		if len(valid) < 40 {
 			valid = append(valid, k.String(), nk.String())
@@ -354,7 +367,7 @@ func main() {
 				k, _ := derive(seed, t%len(nets), path)
 				if k != nil {
 					found[bits]++
-					roundTrip(k, map[string]interface{}{"seed": vh.Hex(seed), "net": nets[t%len(nets)].Name, "path": fmt.Sprint(path),
+					roundTrip(k, map[string]interface{}{"seed": vh.Hex(seed), "net": nets[t%len(nets)].Name, "net_index": t % len(nets), "path_indices": path,
 						"child_scalar": hex.EncodeToString(hdref.Ser256(sc))}, true, r)
 				}
 				break
